@@ -14,7 +14,7 @@ def make_mixed(ctx, count, length):
         rng = G.rng_for(ctx.seed, "C19m", i)
         cfg = G.rand_cfg(rng, mtu=rng.choice([576, 1500, 9216, rng.randint(576, 9216)]))
         net = G.Net(rng, cfg["mac"])
-        glob = G.rand_global(rng, icon_size=rng.choice([0, 10, 2000, 30000]))
+        glob = G.rand_global(rng, icon_size=rng.choice([0, 10, 2000, 30000, 32768, 32769, 40000, 70000]))
         frames = []
         while len(frames) < length:
             chunk = G.session_history(rng, net, cfg["mtu"], min(400, length - len(frames)), p_mut=0.15, p_noise=0.03,
@@ -139,7 +139,7 @@ def make_repeat(ctx, count, k):
         rng = G.rng_for(ctx.seed, "C19r", i)
         cfg = G.rand_cfg(rng, mtu=rng.choice([576, 1500, 9216]))
         net = G.Net(rng, cfg["mac"])
-        glob = G.rand_global(rng, icon_size=rng.choice([0, 500, 20000]))
+        glob = G.rand_global(rng, icon_size=rng.choice([0, 500, 20000, 40000, 65536]))
         which = ["discover", "emit", "query", "qlt-icon", "qlt-fname", "qlt-hwid", "qlt-unknown", "reset", "charge", "hello",
                  "foreign-tos", "discover-quick", "qlt-quick"][i % 13]
         m = 0
